@@ -18,7 +18,7 @@ func init() { register(&Spec{ID: "C14", Targets: []load.Target{load.Linux, load.
 
 func runC14(c *core.Ctx) {
 	runFixtures(c, "drop", "nilguard", "once", "notexist")
-	c.Explain("Structural clauses of C14 decided from source; 'inject a fault at each store call index' becomes 'follow the error edge of each fallible call': (R14.1) the []OpResult of every Transaction.Commit in packages keyvalue/mem is not discarded: it is returned to a caller that reads it, or each element's Err is read and reaches a return; (R14.2) for every fallible call in package keyvalue (Store/Transaction/FileRecord/blob calls, save, setFile, getFile…, on both the serial-fallback and TransactionStore paths) the error is returned, wrapped or handed on along every failing path (accepted: errors.Is(ErrNotExist/ErrExist) look-up idioms — those are not store failures —, closing read-only handles, aborting on an error path); (R14.3a) the pointer/interface result that came with a non-nil error is never invoked or dereferenced on that path; (R14.3b) a struct field assigned together with an error field from one call is never invoked without a dominating nil-test of it or of the paired error; (R14.4) each Go-level Transaction implementation stores the store's Get/Set error into the recorded OpResult.Err. (R14.5) a function of package keyvalue that answers a list of paths with slices allocated as make(T, len(paths)) returns those slices on every path: a nil or shorter slice on the store-failure path makes the callers, which index by path, panic instead of returning the error. (R14.6) where an operation stores a record under a new name and deletes it under the old one in one transaction (Rename of a file), the store is issued with a handler that aborts the transaction when the store's result carries an error — with a plain Set the serial fallback runs the delete although the store was refused, and the file exists under neither name. (R14.7) every closure given to sync.Once.Do in package keyvalue that calls something fallible stores the error into a field, never into a captured local (later calls skip the closure); (R14.8) a function of keyvalue/mem that reads an OpResult returns the ErrNotExist sentinel only where that OpResult's Err was found nil. (R14.9) a function handed a non-nil error returns one except on the ErrNotExist/ErrExist edges; (R14.10) memoised (value, error) pairs are returned together; (R14.11) a whole-look-up failure is reported for every path. (R14.12) = R18.6: every transaction begun in package keyvalue is committed or aborted on every path. NOT claimed: that a fresh look-up shows exactly what the store holds after a fault, hang-freedom, panics from index expressions on result slices, examples/s3 (not loadable offline).")
+	c.Explain("Structural clauses of C14 decided from source; 'inject a fault at each store call index' becomes 'follow the error edge of each fallible call': (R14.1) the []OpResult of every Transaction.Commit in packages keyvalue/mem is not discarded: it is returned to a caller that reads it, or each element's Err is read and reaches a return; (R14.2) for every fallible call in package keyvalue (Store/Transaction/FileRecord/blob calls, save, setFile, getFile…, on both the serial-fallback and TransactionStore paths) the error is returned, wrapped or handed on along every failing path (accepted: errors.Is(ErrNotExist/ErrExist) look-up idioms — those are not store failures —, closing read-only handles, aborting on an error path); (R14.3a) the pointer/interface result that came with a non-nil error is never invoked or dereferenced on that path; (R14.3b) a struct field assigned together with an error field from one call is never invoked without a dominating nil-test of it or of the paired error; (R14.4) each Go-level Transaction implementation stores the store's Get/Set error into the recorded OpResult.Err. (R14.5) a function of package keyvalue that answers a list of paths with slices allocated as make(T, len(paths)) returns those slices on every path: a nil or shorter slice on the store-failure path makes the callers, which index by path, panic instead of returning the error. (R14.6) where an operation stores a record under a new name and deletes it under the old one in one transaction (Rename of a file), the store is issued with a handler that aborts the transaction when the store's result carries an error — with a plain Set the serial fallback runs the delete although the store was refused, and the file exists under neither name. (R14.7) every closure given to sync.Once.Do in package keyvalue that calls something fallible stores the error into a field, never into a captured local (later calls skip the closure); (R14.8) a function of keyvalue/mem that reads an OpResult returns the ErrNotExist sentinel only where that OpResult's Err was found nil. (R14.9) a function handed a non-nil error returns one except on the ErrNotExist/ErrExist edges; (R14.10) memoised (value, error) pairs are returned together; (R14.11) a whole-look-up failure is reported for every path. (R14.12) = R18.6: every transaction begun in package keyvalue is committed or aborted on every path. (R14.13) attribute setters of the handle return nil only after save(); (R14.14) a loop-carried error of package keyvalue is nil-tested inside the loop. NOT claimed: that a fresh look-up shows exactly what the store holds after a fault, hang-freedom, panics from index expressions on result slices, examples/s3 (not loadable offline).")
 	c.Assume("A1: a Store/Transaction/FileRecord implementation reports failure through its error result", "A6: partial correctness")
 	c.RuleDoc("R14.1", "commit results are read")
 	c.RuleDoc("R14.2", "no store-layer error dropped on any failing path in package keyvalue")
@@ -26,6 +26,8 @@ func runC14(c *core.Ctx) {
 	c.RuleDoc("R14.6", "in a move, the delete of the old name is conditional on the store of the new one")
 	c.RuleDoc("R14.5", "per-path result slices keep the input's length on the failure path")
 	c.RuleDoc("R14.7", "the error of a run-once (sync.Once) evaluation is memoised in a field, not in a local")
+	c.RuleDoc("R14.13", "an attribute setter of the key-value handle reports success only after save")
+	c.RuleDoc("R14.14", "an error produced in a loop iteration of package keyvalue is examined in that iteration")
 	c.RuleDoc("R14.12", "every transaction begun in package keyvalue is committed or aborted on every path, failing ones included (= R18.6)")
 	c.RuleDoc("R14.11", "a failure of a whole multi-path look-up is reported for every path")
 	c.RuleDoc("R14.10", "a memoised (value, error) pair is handed out together")
@@ -46,6 +48,8 @@ func runC14(c *core.Ctx) {
 			r14ErrBeforeNotExist(c, p)
 			r14ErrorParams(c, p)
 			r14FailureForEveryPath(c, p)
+			r14SettersAskTheStore(c, p)
+			r14LoopErrorsExamined(c, p)
 			// R14.12 (= R18.6): a store failure between Transaction() and Commit/Abort must still end the transaction — a leaked
 			// transaction of the in-memory store keeps its mutex, and the NEXT operation on the file system hangs
 			if txnI := ifaceOf(p, "keyvalue", "Transaction"); txnI != nil {
@@ -65,6 +69,8 @@ func runC14(c *core.Ctx) {
 	c.Floor("R14.10", 1)
 	c.Floor("R14.11", 2)
 	c.Floor("R14.12", 4)
+	c.Floor("R14.13", 1)
+	c.Floor("R14.14", 3)
 }
 
 func pkgFuncs(p *load.Program, rel string) []*ssa.Function {
@@ -1175,4 +1181,178 @@ func sliceThroughIdentity(p *load.Program, v ssa.Value) ssa.Value {
 		return v
 	}
 	return cl.Call.Args[idx]
+}
+
+// r14SettersAskTheStore (R14.13): the attribute setters of the key-value handle (methods of the handle type that call
+// save() and never load the contents: Chmod, Chown, Chtimes …) return a constant nil only after a save() call: the
+// override they set is kept in the handle even when the store refuses it, so "already as requested, nothing to write"
+// answers success for a change the store never accepted.
+func r14SettersAskTheStore(c *core.Ctx, p *load.Program) {
+	save := p.Method("keyvalue", "fileData", "save")
+	if save == nil {
+		c.Hard("anchor: keyvalue.(*fileData).save")
+		return
+	}
+	for _, fn := range pkgFuncs(p, "keyvalue") {
+		if fn.Blocks == nil || fn.Signature.Recv() == nil || fn.Parent() != nil || !strings.Contains(fn.Signature.Recv().Type().String(), "keyvalue.file") {
+			continue
+		}
+		var saves []ssa.Instruction
+		loads := false
+		ssax.Instrs(fn, func(ins ssa.Instruction) {
+			if cl, ok := ins.(*ssa.Call); ok {
+				callee := ssax.StaticCallee(cl)
+				if callee == save {
+					saves = append(saves, cl)
+				}
+				if callee != nil && callee.Name() == "Data" {
+					loads = true
+				}
+			}
+		})
+		if len(saves) == 0 || loads {
+			continue
+		}
+		bad := ""
+		for _, r := range ssax.Returns(fn) {
+			if len(r.Results) == 0 {
+				continue
+			}
+			last := resolveSpilled(r.Results[len(r.Results)-1], r)
+			if !ssax.IsErrorType(last.Type()) || !ssax.IsNilConst(last) {
+				continue
+			}
+			dominated := false
+			for _, s := range saves {
+				if ssax.Dominates(s, r) {
+					dominated = true
+				}
+			}
+			if !dominated {
+				bad = p.Pos(r.Pos())
+			}
+		}
+		c.Check(bad == "", "R14.13", fname(fn)+"|success-only-after-save", p.Pos(fn.Pos()), "every nil return follows save()",
+			fmt.Sprintf("%s returns nil at %s without having called save(): the handle keeps the attribute an earlier, refused call set, so this shortcut reports success for a change the store did not accept (chmod refused, chmod again: nil)", fname(fn), bad))
+	}
+}
+
+// r14LoopErrorsExamined (R14.14): in package keyvalue an error that is carried around a loop (a phi at the loop header
+// fed from inside the loop) is nil-tested inside the loop — the value itself, one of the values merged into it, or the
+// carried variable: otherwise the next iteration overwrites the failure of this one, and only the last store call counts.
+func r14LoopErrorsExamined(c *core.Ctx, p *load.Program) {
+	for _, fn := range pkgFuncs(p, "keyvalue") {
+		if fn.Blocks == nil {
+			continue
+		}
+		hasLoopCall := false
+		bad := ""
+		for _, h := range fn.Blocks {
+			// the natural loop of every back edge into h
+			loop := map[*ssa.BasicBlock]bool{}
+			for _, pr := range h.Preds {
+				if !h.Dominates(pr) {
+					continue
+				}
+				var back func(b *ssa.BasicBlock)
+				back = func(b *ssa.BasicBlock) {
+					if loop[b] {
+						return
+					}
+					loop[b] = true
+					if b == h {
+						return
+					}
+					for _, q := range b.Preds {
+						back(q)
+					}
+				}
+				loop[h] = true
+				back(pr)
+			}
+			if len(loop) == 0 {
+				continue
+			}
+			for b := range loop {
+				for _, ins := range b.Instrs {
+					if cl, ok := ins.(*ssa.Call); ok && hasErrorResult(cl) {
+						hasLoopCall = true
+					}
+				}
+			}
+			tested := func(v ssa.Value) bool {
+				refs := v.Referrers()
+				if refs == nil {
+					return false
+				}
+				for _, r := range *refs {
+					bo, ok := r.(*ssa.BinOp)
+					if !ok || !loop[bo.Block()] || !(ssax.IsNilConst(bo.X) || ssax.IsNilConst(bo.Y)) {
+						continue
+					}
+					return true
+				}
+				return false
+			}
+			for _, ins := range h.Instrs {
+				phi, ok := ins.(*ssa.Phi)
+				if !ok {
+					break
+				}
+				if !ssax.IsErrorType(phi.Type()) {
+					continue
+				}
+				// values merged into the carried variable from inside the loop
+				set := map[ssa.Value]bool{}
+				var add func(v ssa.Value)
+				add = func(v ssa.Value) {
+					if set[v] {
+						return
+					}
+					set[v] = true
+					if q, ok := v.(*ssa.Phi); ok && loop[q.Block()] {
+						for _, e := range q.Edges {
+							add(e)
+						}
+					}
+				}
+				fed := false
+				for i, e := range phi.Edges {
+					if loop[h.Preds[i]] && e != ssa.Value(phi) {
+						if _, isConst := e.(*ssa.Const); !isConst {
+							fed = true
+						}
+						add(e)
+					}
+				}
+				if !fed {
+					continue
+				}
+				okk := tested(phi)
+				for v := range set {
+					if tested(v) {
+						okk = true
+					}
+				}
+				// the error of a call handed straight to a call that consumes it (a wrapper whose result is tested) counts
+				// through the wrapper's result, which is in the set; anything else is unexamined
+				if !okk {
+					bad = p.Pos(phi.Pos())
+					if bad == "" || bad == "-" {
+						bad = "the loop at " + p.Pos(h.Instrs[len(h.Instrs)-1].Pos())
+					}
+				}
+			}
+		}
+		if !hasLoopCall {
+			continue
+		}
+		c.Check(bad == "", "R14.14", fname(fn)+"|loop-errors-examined-in-the-iteration", p.Pos(fn.Pos()), "every loop-carried error is nil-tested inside the loop",
+			fmt.Sprintf("%s: an error assigned inside a loop (%s) is carried into the next iteration without being tested: a store failure in any iteration but the last is overwritten, and the operation reports success for a Set the store refused", fname(fn), bad))
+	}
+}
+
+func hasErrorResult(cl *ssa.Call) bool {
+	res := cl.Call.Signature().Results()
+	return res.Len() > 0 && ssax.IsErrorType(res.At(res.Len()-1).Type())
 }
